@@ -61,6 +61,20 @@ def determinism(args):
                 print(p.stdout[-2000:], p.stderr[-2000:])
     if os.environ.get("VERIF_DET_CHILD"):
         return 0
+    # worker-count independence: the same units on 1 and on 16 workers must merge to the same outcome
+    R.scratch_root()
+    for prop, engine in sorted(machines.ENGINE_OF.items()):
+        eng = R.get_engine(engine)
+        units = eng.plan("quick", 3)
+        step = max(1, len(units) // (n * 2))
+        sub = units[::step][:n * 2]
+        outs = []
+        for w in (1, 16):
+            tot, _ = R.run_batch(engine, 3, sub, w)
+            outs.append((tot.evaluations, sorted(tot.digests), sorted(tot.stats.items()), len(tot.violations)))
+        ok = outs[0] == outs[1]
+        failures += 0 if ok else 1
+        print(f"determinism {prop}/{engine} units={len(sub)}: 1 worker vs 16 workers = {'same' if ok else 'DIFFERENT'}")
     print("determinism:", "OK" if failures == 0 else f"{failures} FAILURE(S)")
     return 0 if failures == 0 else 2
 
